@@ -73,7 +73,9 @@ PDU::PDU(const PDU& other)
 }
 
 PDU& PDU::operator=(const PDU& other) {
-    copy_inner_pdu(other);
+    // Clone before releasing our own inner PDU (other may be *this), and
+    // release it even if other has no inner PDU.
+    inner_pdu(other.inner_pdu() ? other.inner_pdu()->clone() : 0);
     return* this;
 }
 
